@@ -411,6 +411,7 @@ async fn run_scenario(sc: Value, sock: PathBuf, meaning: Map<String, Value>) -> 
     if let Some(sec) = &secret {
         cfg.auth_token_key = Some(sec.clone());
     }
+    cfg.extended_monitoring = b(&sc, "extmon");
     if let Some(ms) = sc["send_timeout_ms"].as_u64() {
         cfg.send_timeout = Some(Duration::from_millis(ms));
     }
@@ -524,7 +525,7 @@ async fn run_scenario(sc: Value, sock: PathBuf, meaning: Map<String, Value>) -> 
     subsys.request_global_shutdown();
     let clean = tokio::time::timeout(Duration::from_secs(10), server).await.map(|r| r.unwrap_or(false)).unwrap_or(false);
     let res = json!({"sessions": sess_out, "streams": streams, "lsstreams": lsstreams, "extra": extra, "exact": exact,
-           "auth_required": secret.is_some(), "server_clean_exit": clean});
+           "auth_required": secret.is_some(), "server_clean_exit": clean, "extmon": b(&sc, "extmon")});
     let names = sh.names.lock().await;
     names.translate(&res)
 }
